@@ -164,6 +164,8 @@ def apply_contract(interp, c, func, args, kwargs):
         ys = c.yields.make(interp, 'yielded.%s' % c.qname.rpartition(':')[2])
         ghosts = dict(ghosts, yielded=ys)
         result = SIter(ys, 0)
+    if c.event is not None:
+        st.emit(c.event + ':returned', result)
     env2 = _clause_env(bound, ghosts, {'result': result, 'old': old, 'trace': st.trace, 'ghost': st.ghost})
     for name, clause in c.ensures.items():
         if isinstance(clause, tuple) and callable(clause[1]):
